@@ -30,6 +30,8 @@ int g_crashAt = -1;   // _exit(77) right before the k-th counted call
 int g_failAt = -1;    // the k-th counted call fails with g_failErrno instead of running
 int g_failErrno = 0;
 int g_traceFd = -1;
+int g_stickyErrno = 0; // see verif_shim_sticky
+void (*g_unlinkHook)(const char *) = nullptr;
 
 template<typename F>
 F real(const char *name)
@@ -60,6 +62,18 @@ bool note(const char *what, const char *path)
         errno = g_failErrno;
         return true;
     }
+    if (g_stickyErrno) {
+        const bool dirOp = !strcmp(what, "rename") || !strcmp(what, "renameat2") || !strcmp(what, "link") || !strcmp(what, "linkat") || !strcmp(what, "unlink");
+        bool creates = false;
+        if (!strcmp(what, "open-create") && path) {
+            struct stat st;
+            creates = ::stat(path, &st) != 0; // the file does not exist yet: creating it needs a writable directory
+        }
+        if (dirOp || creates) {
+            errno = g_stickyErrno;
+            return true;
+        }
+    }
     return false;
 }
 
@@ -83,8 +97,11 @@ void verif_shim_arm(int crashAt, int failAt, int failErrno, int traceFd)
 int verif_shim_disarm()
 {
     g_armed = false;
+    g_stickyErrno = 0;
     return g_count;
 }
+void verif_shim_sticky(int err) { g_stickyErrno = err; }
+void verif_shim_on_unlink(void (*hook)(const char *)) { g_unlinkHook = hook; }
 
 // ------------------------------------------------------------------------------------ clock
 extern "C" int gettimeofday(struct timeval *tv, void *tz) noexcept
@@ -188,6 +205,7 @@ extern "C" int unlink(const char *p) noexcept
 {
     static auto r = real<int (*)(const char *)>("unlink");
     if (note("unlink", p)) return -1;
+    if (g_unlinkHook) g_unlinkHook(p);
     return r(p);
 }
 
